@@ -17,6 +17,8 @@ MP = [
     (r'Base::check_(full|empty)\(', r'Base_check_\1(&this->b, ', 1),
     (r'__auto_type const (\w+) = ', r'uint64_t \1 = ', 1),
 ]
+SR = [(r'static_assert\((?:[^()]|\([^()]*\))*\);', ';', 1), (r'(tail|head)\.fetch_add\(1\)', r'mp_claim(this, &this->b.\1)', 1), (r'Pause::pause\(\);', 'pause_();', 1),
+      (r'mark\.load\([^)]*\)', 'mp_load_mark(this, mark)', 1)] + [r_ for r_ in MP if 'mark\\.load' not in r_[0] and 'check_' not in r_[0]]
 BQ_RULES = [
     (r'\b(tail|head|write_head|read_tail)\.load\([^)]*\)', r'bq_load(this, &this->BQF_\1)', 1),
     (r'\b(tail|head|write_head|read_tail)\.compare_exchange_strong\(\s*(\w+), ([^,]+),\s*std::memory_order_acq_rel\)', r'bq_cas(this, &this->BQF_\1, &\2, \3)', 1),
@@ -29,7 +31,7 @@ SPR = [
     (r'Base::check_(full|empty)\(', r'Base_check_\1(&this->b, ', 0), (r'std::min\(', 'MIN_(', 0), (r'Base::capacity', 'this->b.capacity', 0),
     (r'(?<![\w>.:])idx\(', 'Base_idx(&this->b, ', 1), (r'&slots\[', '&this->slots[', 0), (r'(?<![\w>.])(produce|consume)\(', 'CB_(', 0),
 ]
-CHR = [(r'\bT x;', 'uint64_t x;', 1), (r'(?:queue->)?(?<![\w.])pop\(x\)', 'CH_pop(this, &x)', 1),
+CHR = [(r'\bT x;', 'uint64_t x;', 1), (r'(?:queue->)?(?<![\w.>])full\(\)', 'CH_full(this)', 0), (r'(?:queue->)?(?<![\w.])pop\(x\)', 'CH_pop(this, &x)', 1),
        (r'SendBackoff<T>::notify_senders\([^;]*\);', 'notify_senders_(this);', 1), (r'photon::thread_yield\(\);', 'thread_yield_();', 1),
        (r'(idler|pending)\.fetch_add\((\w+), [^)]*\)', r'at_fetch_add(this, &this->\1, \2)', 1), (r'(idler|pending)\.fetch_sub\((\w+), [^)]*\)', r'at_fetch_sub(this, &this->\1, \2)', 1),
        (r'Timeout yield_timeout\(([^)]*)\);', r'struct Timeout yield_timeout; Timeout_ctor_(&yield_timeout, \1);', 1),
@@ -37,7 +39,7 @@ CHR = [(r'\bT x;', 'uint64_t x;', 1), (r'(?:queue->)?(?<![\w.])pop\(x\)', 'CH_po
        (r'queue_sem\.wait\(1, [^)]*\)', 'sem_wait_(this)', 1)]
 CH_RM = {'count': 1, 0: dict(name='RC', frame=['this', 'x', 'yield_turn', 'yield_timeout', 'r', 'POPPED', 'POP_FAILED_SINCE', 'TOKEN_UNMIRRORED', 'N_WAIT', 'N_PEND_DEC', 'N_YIELD'],
          effects={'CH_pop': ['this', 'x', 'POPPED', 'POP_FAILED_SINCE'], 'thread_yield_': ['N_YIELD'], 'sem_wait_': ['this', 'POP_FAILED_SINCE', 'TOKEN_UNMIRRORED', 'N_WAIT'],
-                  'at_fetch_sub': ['this', 'TOKEN_UNMIRRORED', 'N_PEND_DEC'], 'Timeout_timeout_': ['yield_timeout'], 'at_fetch_add': ['this', 'POP_FAILED_SINCE']}, pure=['Timeout_expired_'])}
+                  'at_fetch_sub': ['this', 'TOKEN_UNMIRRORED', 'N_PEND_DEC'], 'Timeout_timeout_': ['yield_timeout'], 'at_fetch_add': ['this', 'POP_FAILED_SINCE']}, pure=['Timeout_expired_', 'CH_full'])}
 CHS = [(r'SendBackoff<T>::template push_backoff<Pause>\(.*?send_sem, send_waiters, send_pending\);', 'push_backoff_(this, x);', 1),
        (r'std::atomic_thread_fence\(std::memory_order_seq_cst\);', 'fence_();', 1),
        (r'(idler|pending)\.load\([^)]*\)', r'sd_load(this, &this->\1)', 1),
@@ -70,6 +72,13 @@ TARGETS = [
         marks={'count': 1, 0: dict(name='MPO', frame=['h', 'this', 'ps', 'slot', 'mark', 't', 'prevHead', 'CLAIMED', 'x', 'POP_READ_OK'],
                effects={'mp_load': ['this'], 'mp_cas': ['this', 'h', 'CLAIMED'], 'mp_store_mark': ['this', 'CLAIMED'], 'SLOT_DATA_READ': ['POP_READ_OK']},
                pure=PURE)}),
+    # blocking send()/recv(): the position is claimed unconditionally (fetch_add), the slot is used once its mark shows this call's turn
+    Target('mpmc_send', Q, r'void send\(const T& x\) (?=\{\s*static_assert[^;]*;\s*auto const t = tail\.fetch_add)', common=True, rules=SR + [
+        (r'slot = x;', 'SLOT_DATA_WRITE_T(this, slot, *x);', 1)],
+        marks={'count': 1, 0: dict(name='MPS', frame=['this', 'LAST_MARK'], effects={'mp_load_mark': ['this', 'LAST_MARK']}, pure=PURE + ['pause_'])}),
+    Target('mpmc_recv', Q, r'T recv\(\) (?=\{\s*static_assert[^;]*;\s*auto const h = head\.fetch_add)', common=True, rules=SR + [
+        (r'\bT ret = slot;', 'uint64_t ret = SLOT_DATA_READ_T(this, slot);', 1), (r'return slot;', 'return SLOT_DATA_READ_T(this, slot);', 0)],
+        marks={'count': 1, 0: dict(name='MPR', frame=['this', 'LAST_MARK'], effects={'mp_load_mark': ['this', 'LAST_MARK']}, pure=PURE + ['pause_'])}),
     Target('push_batch', Q, r'size_t push_batch\(const T\* x, size_t n\)', index=0, count=2, rules=BQ_RULES,
            marks={'count': 2, 0: dict(name='PB', frame=['rh', 'wt', 'wn', 'this', 'first_idx', 'part_length', 'wh', 'W_CLAIM', 'R_CLAIM', 'CL_POS', 'CL_N', 'N_CLAIM', 'N_PUBLISH', 'N_CPY', 'CPY_DST', 'CPY_SRC', 'CPY_LEN'],
                                    effects={'bq_load': ['this'], 'bq_cas': ['this', 'wt', 'wh', 'W_CLAIM', 'R_CLAIM', 'CL_POS', 'CL_N', 'N_CLAIM', 'N_PUBLISH'], 'bq_memcpy': ['this', 'N_CPY', 'CPY_DST', 'CPY_SRC', 'CPY_LEN']}, pure=['Base_idx', 'MIN_']),
@@ -125,6 +134,8 @@ PROOFS = [
     Proof('channel/push_backoff', 'chan.c', 'h_push_backoff', kind='L', min_obligations=4),
     Proof('channel/notify_senders', 'chan.c', 'h_notify_senders', kind='L', min_obligations=4),
     Proof('mpmc/pop', 'ring.c', 'h_mpmc_pop', kind='L', min_obligations=4, backend='cadical'),
+    Proof('mpmc/send', 'ring.c', 'h_mpmc_send', kind='L', min_obligations=4, backend='cadical'),
+    Proof('mpmc/recv', 'ring.c', 'h_mpmc_recv', kind='L', min_obligations=4, backend='cadical'),
 ]
 NATIVES = [Native('native', 'native.cpp', args_quick=[200000], args_thorough=[20000000], timeout=3000, link_photon=True)]
 REPLAY = 'native'
